@@ -169,6 +169,16 @@ impl ForwardedModule {
             map = Arc::new(PrefixedMapView(map, prefix.to_owned()));
         }
 
+        // `show`/`hide` name the members as they are seen downstream, i.e. with
+        // the prefix already applied
+        if let Some(safelist) = safelist {
+            map = Arc::new(LimitedMapView::safelist(map, safelist));
+        } else if let Some(blocklist) = blocklist {
+            if !blocklist.is_empty() {
+                map = Arc::new(LimitedMapView::blocklist(map, blocklist));
+            }
+        }
+
         map
     }
 
